@@ -50,6 +50,7 @@ int main(int argc, char** argv)
     {
         // owner search is only meaningful when some rank owns columns: rows > 0
         int search = rows > 0 ? cols : 0;
+        { char ab[96]; snprintf(ab, 96, "partition/rows%d/cols%d/np%d", rows, cols, E.np); E.about(ab); }
         if (E.want()) {
             Partition* p = new Partition(rows, cols, topo);
             std::vector<long long> in = {0, 0, 0, 0};
@@ -60,6 +61,7 @@ int main(int argc, char** argv)
         for (int br = 1; br <= 3; br++) for (int bc = 1; bc <= 3; bc++) {
             if ((br == 1 && bc == 1) || rows % br || cols % bc) continue;
             if (!E.thorough && (rows + cols + br + bc) % 3) continue;
+            { char ab[96]; snprintf(ab, 96, "partition_block/rows%d/cols%d/b%dx%d/np%d", rows, cols, br, bc, E.np); E.about(ab); }
             if (E.want()) {
                 Partition* p = new Partition(rows, cols, br, bc, topo);
                 // a rank without rows leaves first_local_col unset in this constructor: the value read
